@@ -33,6 +33,54 @@ def crash_states(c, name, **kw):
     return out
 
 
+def final_states(c, name, **kw):
+    """all (ex, ct) the model can end in when every participant has finished"""
+    path = cfg("fs_" + name, invariants=(), **kw)
+    txt = open(path).read().replace("CHECK_DEADLOCK", "CONSTRAINT EmitFinal\nCHECK_DEADLOCK")
+    open(path, "w").write(txt)
+    r = tlc.run("MCFS", path, workers=1, timeout=900, heap="6g")
+    c.add_tlc("CacheFS-final-states[%s]" % name, r)
+    return {canon(st["ex"], st["ct"]) for st in tlc.printed_json(r)}
+
+
+def snapshot(root, keymap, code_texts):
+    """classify the function directory of a real cache in the vocabulary of CacheFS.tla (arguments of f -> model keys)"""
+    import os, json, joblib
+    fdir = os.path.join(root, "joblib", "cachedmod", "f")
+    ex = []; ct = []
+    if not os.path.isdir(fdir): return canon([], [])
+    ex.append(["F"])
+    cp = os.path.join(fdir, "func_code.py")
+    if os.path.exists(cp):
+        txt = open(cp, "rb").read(); ex.append(["F", "code"])
+        v = [k for k, t in code_texts.items() if t == txt]
+        ct.append([["F", "code"], ["code", v[0]] if v else ["empty"] if not txt else ["partial"]])
+    byname = {joblib.hash({"x": a, "y": 0}): kk for a, kk in keymap.items()}
+    for name in os.listdir(fdir):
+        d = os.path.join(fdir, name)
+        if not os.path.isdir(d): continue
+        key = byname.get(name, "?" + name[:4])
+        ex.append(["F", key])
+        for fn in os.listdir(d):
+            fp = os.path.join(d, fn)
+            if fn.startswith("output.pkl"):
+                try:
+                    val = joblib.load(fp); cls = ["val", int(val[0][1:]), keymap[val[1]]]
+                except Exception:
+                    cls = ["partial"]
+            elif fn.startswith("metadata.json"):
+                try:
+                    json.load(open(fp)); cls = ["meta"]
+                except Exception:
+                    cls = ["partial"]
+            else:
+                continue
+            kind = "out" if fn == "output.pkl" else "metaf" if fn == "metadata.json" else "tmpo" if fn.startswith("output.pkl") else "tmpm"
+            pth = ["F", key, kind] + ([1] if kind.startswith("tmp") else [])
+            ex.append(pth); ct.append([pth, cls])
+    return canon(ex, ct)
+
+
 def canon(ex, ct):
     import json
     return json.dumps([sorted(["/".join(map(str, x)) for x in ex]), sorted(["/".join(map(str, x)), list(v)] for x, v in ct)])
